@@ -400,6 +400,36 @@ Proof.
     + apply is_empty_false in Hpp. rewrite Hpp. subst st. simpl. rewrite !andb_false_r. reflexivity.
 Qed.
 
+(* the verdict depends on the file system only at the prepared-database path *)
+Theorem db_validate_fs_local :
+  forall c fs1 fs2, fs1 (prepared_path c) = fs2 (prepared_path c) ->
+    db_validate_fs (Some c) fs1 = db_validate_fs (Some c) fs2.
+Proof. intros c fs1 fs2 Heq. unfold db_validate_fs. rewrite Heq. reflexivity. Qed.
+
+Theorem db_validate_fs_iff :
+  forall c fs, db_validate_fs (Some c) fs = Accept <-> db_ok c (fs (prepared_path c)).
+Proof. intros c fs. unfold db_validate_fs. apply db_validate_iff. Qed.
+
+(* ... in particular not on what exists at db.sqlite.file_path: nothing, an empty file, a directory, a
+   database full of headers - the verdict is the same *)
+Theorem db_validate_ignores_sqlite_path :
+  forall c fs st, sqlite_path c <> prepared_path c ->
+    db_validate_fs (Some c) (fs_override fs (sqlite_path c) st) = db_validate_fs (Some c) fs.
+Proof.
+  intros c fs st Hne. apply db_validate_fs_local. unfold fs_override.
+  destruct (String.eqb_spec (prepared_path c) (sqlite_path c)) as [Heq|Hneq].
+  - exfalso. apply Hne. symmetry. exact Heq.
+  - reflexivity.
+Qed.
+
+Example db_validate_ignores_sqlite_path_example :
+  let c := mk_dbcfg "sqlite" "./data/blockheaders.db" "" 0 "" "" true "./data/blockheaders.csv.gz" in
+  let fs0 := fun _ : string => NotExist in
+  db_validate_fs (Some c) fs0 = RejPreparedMissing
+  /\ db_validate_fs (Some c) (fs_override fs0 "./data/blockheaders.db" Found) = RejPreparedMissing
+  /\ db_validate_fs (Some c) (fs_override fs0 "./data/blockheaders.csv.gz" Found) = Accept.
+Proof. vm_compute. repeat split; reflexivity. Qed.
+
 (* ------------------------------------------------------------------------------------------------ *)
 (* variable names *)
 
